@@ -108,6 +108,9 @@ def check(P, R):
     ctxs = [c for c in walk_shallow(rn.node) if isinstance(c, ast.Call) and dotted(c.func) == 'dict' and c.keywords]
     if not ctxs:
         ctxs = [c for c in walk_shallow(rn.node) if isinstance(c, ast.Dict)]
+    if not ctxs:
+        # the fields given to format() as explicit keyword arguments
+        ctxs = [c for c in walk_shallow(rn.node) if isinstance(c, ast.Call) and call_attr(c) == 'format' and c.keywords and all(k.arg for k in c.keywords)]
     R.require(ctxs, 'render: template context not found')
     ctx = ctxs[0]
     cn0 = g.node_of_stmt(ctx)[0]
